@@ -45,21 +45,25 @@ PickKind(k) == /\ pc = "kinds" /\ Len(kinds) < NCells
 
 \* a step that hashes its argument is a step of the program only when the
 \* hash exists; otherwise it is the program's last statement (Observe)
-Build(s) == /\ pc = "build" /\ Len(steps) < MaxSteps
-            /\ WellFormed(h, s)
-            /\ (s.op \in {"add", "putkey"} => Walk(h, "hash", s.y, Fuel(h)) = "value")
-            /\ steps' = Append(steps, s)
-            /\ h' = Apply(h, s)
-            /\ UNCHANGED <<pc, kinds, obs>>
+Build(op, x, y) ==
+  LET s == Step(op, x, y) IN
+    /\ pc = "build" /\ Len(steps) < MaxSteps
+    /\ WellFormed(h, s)
+    /\ (op \in {"add", "putkey"} => Walk(h, "hash", y, Fuel(h)) = "value")
+    /\ steps' = Append(steps, s)
+    /\ h' = Apply(h, s)
+    /\ UNCHANGED <<pc, kinds, obs>>
 
-Observe(o) == /\ pc = "build" /\ ObsOK(h, o)
-              /\ obs' = o /\ pc' = "done"
-              /\ UNCHANGED <<kinds, steps, h>>
+Observe(n, x, y) ==
+  LET o == Obs(n, x, y) IN
+    /\ pc = "build" /\ ObsOK(h, o)
+    /\ obs' = o /\ pc' = "done"
+    /\ UNCHANGED <<kinds, steps, h>>
 
 Cells == 1..NCells
 Next == \/ \E i \in 1..4 : PickKind(CellKinds[i])
-        \/ \E op \in StepOps, x \in Cells, y \in Cells : Build(Step(op, x, y))
-        \/ \E n \in UnaryObs \cup PairObs, x \in Cells, y \in Cells : Observe(Obs(n, x, y))
+        \/ \E op \in StepOps, x \in Cells, y \in Cells : Build(op, x, y)
+        \/ \E n \in UnaryObs \cup PairObs, x \in Cells, y \in Cells : Observe(n, x, y)
 Spec == Init /\ [][Next]_vars
 
 -----------------------------------------------------------------------------
